@@ -423,6 +423,8 @@ H("conn_init_0rtt_native", ["C04", "C14"], "replay-only", "connection::init_0rtt
   [("x", "u8")], 4, [], ["Connection::init_0rtt"], "native replay body of E2 query e2_init_0rtt_scrubs_params")
 H("conn_migrate_oversized_datagram_native", ["C16"], "replay-only", "connection::migrate_oversized_datagram_native",
   [("x", "u8")], 4, [], ["Connection::migrate", "Connection::poll_transmit", "DatagramState::write"], "native demonstration: a queued datagram that no longer fits after a migration")
+H("conn_first_packet_replay_native", ["C04"], "replay-only", "connection::first_packet_replay_native",
+  [("pn", "u8")], 4, [], ["Connection::handle_first_packet", "Connection::handle_event", "Dedup::insert"], "native replay body of E2 query e2_first_packet_dedup")
 H("conn_peer_params_cid_auth_native", ["C14", "C04"], "replay-only", "connection::peer_params_cid_auth_native",
   [("server", "bool"), ("which", "u8")], 4, [], ["Connection::handle_peer_params"], "native replay body of E2 query e2_peer_params_cid_auth")
 
